@@ -266,9 +266,10 @@ fn compile_script(testcases: &[&TestCase], config: &TestCaseConfig, salt: &str) 
         // add exported environment variables before expression
         // note: this executor is only used for Cram `.t` execution, which does
         // not suppot inline configuration. This means that all tests in the
-        // same test file share the same, unmodified default Cram environment
-        // variables. Hence they only need to be set once, at the start.
-        if index == 0 {
+        // same test file share the same default Cram environment variables.
+        // They are set anew before every test, because a previous test may
+        // have changed them.
+        {
             for (key, value) in &testcase.config.environment {
                 // variable keys and values are assumed to be escaped in bash-like
                 // environments, that means even when executing in windows within
